@@ -1,5 +1,5 @@
 """C14 - every access path to the property graph tells the same story (DESIGN §5 C14)."""
-from .facts import short_id, CheckerError
+from .facts import short_id, CheckerError, must_pass
 from .flow import FlowCx, callee_name
 from . import common
 
@@ -153,8 +153,11 @@ def run(ctx):
         if grow:
             # only insertions of a value supplied by the caller can fall outside the current summary
             ext = False
+            unwidened = []
             for g in P.family(f):
                 gx = FlowCx(P, g)
+                wd = {bi for bi, t in g.calls() if callee_name(t).split("::")[-1] in ("update_zone_map_on_insert", "rebuild_zone_map")}
+                wd |= {a.block for a in E.own_acc(g) if a.cell == (PC, "zone_map") and a.kind == "W"}
                 for bi, t in g.calls():
                     if callee_name(t).split("::")[-1] == "insert" and t["args"] and "cell:PropertyColumn.values" in gx.tags(t["args"][0]):
                         vt = set()
@@ -162,10 +165,22 @@ def run(ctx):
                             vt |= gx.tags(a)
                         if any(x.startswith("param:") and x != "param:1" for x in vt):
                             ext = True
+                            # the summary is widened on every path through this insertion: before it, or after it
+                            before = must_pass(g, 0, wd, {bi})
+                            after = bool(wd) and must_pass(g, t["t"], wd, set(g.exits())) if t.get("t") is not None else False
+                            if not (before or after):
+                                unwidened.append(g.loc(t["line"]))
             if ext:
                 n4 += 1
-                widen = "update_zone_map_on_insert" in callees or any(a.cell == (PC, "zone_map") and a.kind == "W" for a in acc) \
-                    or any(a.cell == (PC, "zone_map_dirty") and a.kind == "W" for a in acc) or "rebuild_zone_map" in callees
+                # Marking the summary dirty is only conservative for removals (stale bounds are a superset). For an added
+                # value it would be conservative only if every reader of min/max honoured the flag; the zone_map() accessor
+                # and the range path read the bounds directly, so the flag alone does not count here.
+                readers = [g for g in P.fns.values() if g.krate == "grafeo_core" and "::tests::" not in g.id and
+                           any(a.cell == (PC, "zone_map") and a.kind in ("R", "PASS") for a in E.own_acc(g))]
+                honoured = bool(readers) and all(any(a.cell == (PC, "zone_map_dirty") and a.kind == "R" for a in E.own_acc(g)) for g in readers
+                                                 if g.id.split("::")[-1] not in ("update_zone_map_on_insert", "rebuild_zone_map"))
+                dirty_w = any(a.cell == (PC, "zone_map_dirty") and a.kind == "W" for a in acc)
+                widen = not unwidened or (dirty_w and honoured)
                 ctx.ob("R4", "PropertyColumn::%s#grow" % f.id.split("::")[-1], widen,
                        what="PropertyColumn::%s can add values without widening the zone map: min/max pruning can claim 'no match' for an existing value"
                             % f.id.split("::")[-1], where=f.loc())
